@@ -419,8 +419,14 @@ pub fn opcodes_weight(opcodes: &[OpCode]) -> u128 {
     sum
 }
 
+/// Counts calls of `opcodes_car_weight`, for external verification harnesses. Only compiled with `--cfg melstf_verif`.
+#[cfg(melstf_verif)]
+pub static VERIF_WEIGH_WORK: std::sync::atomic::AtomicU64 = std::sync::atomic::AtomicU64::new(0);
+
 /// Compute the weight of the first bit of opcodes, returning a weight and what remains.
 fn opcodes_car_weight(opcodes: &[OpCode]) -> (u128, &[OpCode]) {
+    #[cfg(melstf_verif)]
+    VERIF_WEIGH_WORK.fetch_add(1, std::sync::atomic::Ordering::Relaxed);
     if opcodes.is_empty() {
         return (0, opcodes);
     }
